@@ -1377,9 +1377,12 @@ class Store:
 
         for daughter, daughter_state in \
                 zip(daughters, daughter_states):
-            # use initial state as default, merge in divided values
+            # use initial state as default, merge in divided values.
+            # Dividers such as 'set' hand the same object to both
+            # daughters; copy it so that the daughters share no state.
             merged_initial_state = deep_merge(
-                daughter_state, daughter.get('initial_state', {}))
+                copy.deepcopy(daughter_state),
+                daughter.get('initial_state', {}))
 
             daughter_key = daughter['key']
             daughter_path = (daughter_key,)
